@@ -80,6 +80,8 @@ HARNESSES = [
        "two nodes (ids symbolic among 3, each with its own fresh cache and arbitrary committee), two (slot, slice) pairs over all of u64 x usize", 3),
     _h("c16_rotor_cache", ROTOR, Q, "memoisation does not change routing", ["Rotor::sample_relay", "Rotor::sample_relays"],
        f"3 validators; a node that routed one shred before (cache keeps or forgets each committee) vs a fresh node, second shred arbitrary; {KEY} for both; committee depends on the generator stream", 2),
+    _h("c16_rotor_resample", ROTOR, Q, "exchanging the sampler invalidates cached committees", ["Rotor::with_sampler", "Rotor::sample_relay", "Rotor::sample_relays"],
+       f"3 validators; a node that routed one shred under sampler S1 and was switched to S2 (Rotor::with_sampler) vs a node built with S2; both shreds arbitrary ({KEY}), S1 / S2 arbitrary stream-dependent committees", 2),
     _dest(2, T), _dest(3, Q), _dest(4, T),
     _leader(2, T), _leader(4, Q),
     _h("c16_turbine_seed", TURB, Q, "tree shuffle seed = injective function of (slot, shred index) only", ["TurbineTree::new"],
